@@ -389,6 +389,40 @@ impl ASN1Type {
         }
     }
 
+    /// The components that `COMPONENTS OF name` includes: the root components of the SEQUENCE or
+    /// SET type that `name` refers to (possibly through further references), together with what
+    /// that type itself still has to include.
+    fn components_of_members(
+        name: &str,
+        tlds: &BTreeMap<String, ToplevelDefinition>,
+        depth: usize,
+    ) -> Option<Vec<SequenceOrSetMember>> {
+        if depth > 64 {
+            return None;
+        }
+        match tlds.get(name) {
+            Some(ToplevelDefinition::Type(ToplevelTypeDefinition { ty, .. })) => match ty {
+                ASN1Type::Sequence(seq) | ASN1Type::Set(seq) => {
+                    let mut members = seq
+                        .members
+                        .iter()
+                        .take(seq.extensible.unwrap_or(usize::MAX))
+                        .cloned()
+                        .collect::<Vec<_>>();
+                    for pending in &seq.components_of {
+                        members.extend(Self::components_of_members(pending, tlds, depth + 1)?);
+                    }
+                    Some(members)
+                }
+                ASN1Type::ElsewhereDeclaredType(alias) => {
+                    Self::components_of_members(&alias.identifier, tlds, depth + 1)
+                }
+                _ => None,
+            },
+            _ => None,
+        }
+    }
+
     pub fn link_components_of_notation(
         &mut self,
         tlds: &BTreeMap<String, ToplevelDefinition>,
@@ -405,25 +439,17 @@ impl ASN1Type {
                     .any(|m| m.ty.link_components_of_notation(tlds));
                 // TODO: properly link components of in extensions
                 // TODO: link components of Class field, such as COMPONENTS OF BILATERAL.&id
-                for comp_link in &s.components_of {
-                    if let Some(ToplevelDefinition::Type(linked)) = tlds.get(comp_link) {
-                        if let ASN1Type::Sequence(linked_seq) | ASN1Type::Set(linked_seq) =
-                            &linked.ty
-                        {
-                            linked_seq
-                                .members
-                                .iter()
-                                .enumerate()
-                                .for_each(|(index, member)| {
-                                    if index < linked_seq.extensible.unwrap_or(usize::MAX) {
-                                        if let Some(index_of_first_ext) = s.extensible {
-                                            s.extensible = Some(index_of_first_ext + 1)
-                                        }
-                                        s.members.push(member.clone());
-                                    }
-                                });
-                            member_linking = true;
+                // once included, the notation is resolved: a type that includes this one finds the
+                // components among its members
+                for comp_link in std::mem::take(&mut s.components_of) {
+                    if let Some(included) = Self::components_of_members(&comp_link, tlds, 0) {
+                        for member in included {
+                            if let Some(index_of_first_ext) = s.extensible {
+                                s.extensible = Some(index_of_first_ext + 1)
+                            }
+                            s.members.push(member);
                         }
+                        member_linking = true;
                     }
                 }
                 member_linking
